@@ -57,6 +57,7 @@ type RecWriter struct {
 	Writes   int
 	FailAt   int  // index of the Write call that fails (-1 = never)
 	Perm     bool // permanent failure from FailAt on
+	Partial  bool // a failing Write accepts the first half of its bytes before failing (n > 0 with an error)
 	FailErr  error
 	Accepted int // bytes accepted in total
 	FailedIn int // number of failures injected
@@ -69,6 +70,12 @@ func (w *RecWriter) Write(p []byte) (int, error) {
 	w.Writes++
 	if w.FailAt >= 0 && (i == w.FailAt || (w.Perm && i > w.FailAt)) {
 		w.FailedIn++
+		if w.Partial {
+			k := len(p) / 2
+			w.Buf = append(w.Buf, p[:k]...)
+			w.Accepted += k
+			return k, w.FailErr
+		}
 		return 0, w.FailErr
 	}
 	w.Buf = append(w.Buf, p...)
